@@ -251,7 +251,7 @@ pub fn replay(case: &Value) -> Result<Verdict, String> {
 }
 
 pub fn run(ctx: &Ctx) -> Report {
-    let cases = ctx.tier.pick(6_000u32, 100_000u32);
+    let cases = ctx.tier.pick(80_000u32, 800_000u32);
     let states = std::sync::atomic::AtomicU64::new(0);
     let transitions = std::sync::atomic::AtomicU64::new(0);
     let mut total = run_shards(16, |shard| {
